@@ -485,6 +485,16 @@ example :
           Res.attempted := by
   decide
 
+/-- **C15/C07** — an archive that cannot be opened (e.g. a walked `*.tar` below a path component that is not
+UTF-8: the lossy path does not exist) is answered with one `FileErr`; it does not abort the run. Generated from
+`process_path_tar`'s open statement (was finding F20: `File::open(path).unwrap()`). -/
+theorem C15_tar_open_no_abort : S4V.Gen.WalkTar.tarOpenUnwraps = false := by decide
+
+/-- with the `unwrap()` form (before the repair) a walked tree holding a tar-named file below a non-UTF-8
+directory makes the whole expansion abort -/
+theorem tar_open_unwrap_aborts :
+    (expandDirAll true (.dir [0xFF, 100] [.file [100, 46, 116, 97, 114]])).any tarOpenPanics = true := by decide
+
 end Tar
 
 end S4V.Props.WalkSpec
